@@ -223,6 +223,8 @@ def run(ctx: Ctx) -> None:
     rule_block_conditions(ctx)
     from .c11 import rule_canonical_first
     rule_canonical_first(ctx)
+    from .c11 import rule_zpivot_hadamard
+    rule_zpivot_hadamard(ctx)
     from ..rules import memo as _memo
     _memo.rule_memo_sound(ctx, ['graphiq/solvers/time_reversed_solver.py', 'graphiq/backends/stabilizer/functions/stabilizer.py'])
     _memo.rule_falsy_zero(ctx, ['graphiq/solvers/time_reversed_solver.py', 'graphiq/backends/stabilizer/functions/stabilizer.py'])
